@@ -864,7 +864,17 @@ class Emitter:
                 inner = [c for c in e.get('inner', ()) if c.get('kind') != 'NonTypeTemplateParmDecl']
                 e = inner[-1] if inner else None
             elif k == 'BinaryOperator' and e.get('opcode') == '=':
-                e = e['inner'][1]
+                # `local = f()` may keep the call in place (the local is dead if f throws); for any other target (global, member,
+                # *p) the call is hoisted into a temporary so that NO assignment happens when the callee throws, as in C++
+                lhs = self.strip(e['inner'][0])
+                rd = lhs.get('referencedDecl') or {}
+                d = self.tu.byid.get(rd.get('id'), rd)
+                q = (d.get('type') or {}).get('qualType', '')
+                if lhs.get('kind') == 'DeclRefExpr' and d.get('kind') == 'VarDecl' and not self.is_global(d) \
+                        and d.get('storageClass') != 'static' and not q.rstrip().endswith('&'):
+                    e = e['inner'][1]
+                else:
+                    return None
             elif k in ('CallExpr', 'CXXMemberCallExpr', 'CXXOperatorCallExpr', 'CXXConstructExpr', 'CXXTemporaryObjectExpr'):
                 return e.get('id')
             else:
